@@ -262,13 +262,86 @@ func coveredCallersSweep(p *Prog, prop string, rr *RunResult) {
 		return
 	}
 	targets := map[*ssa.Function]bool{}
+	fieldTargets := map[string]bool{} // "pkg::Type.field.Method" (method invoked on the value of a field) or "pkg::send Type.field"
 	for _, k := range p.CS.RuleArgs["covered-callers"] {
+		a := k[strings.Index(k, "::")+2:]
+		if strings.HasPrefix(a, "send ") || strings.HasPrefix(a, "write ") || (!strings.Contains(a, "(") && strings.Count(a, ".") == 2) {
+			fieldTargets[k] = true
+			continue
+		}
 		fn := p.FnByKey[k]
 		if fn == nil {
 			rr.Unbound = append(rr.Unbound, k)
 			continue
 		}
 		targets[fn] = true
+	}
+	// fieldOf: the value was loaded from field Type.f (returns "pkg::Type.f")
+	fieldOf := func(v ssa.Value) string {
+		u, ok := v.(*ssa.UnOp)
+		if !ok || u.Op != token.MUL {
+			return ""
+		}
+		fa, ok := u.X.(*ssa.FieldAddr)
+		if !ok {
+			return ""
+		}
+		stt, T := structOf(fa.X.Type())
+		if stt == nil || T == nil {
+			return ""
+		}
+		nt, ok := types.Unalias(T).(*types.Named)
+		if !ok || nt.Obj().Pkg() == nil {
+			return ""
+		}
+		return nt.Obj().Pkg().Path() + "::" + nt.Obj().Name() + "." + stt.Field(fa.Field).Name()
+	}
+	// sensitive: the instruction is a call of a listed function, an invocation of a listed
+	// method on the value of a listed field, or a send on a listed channel field
+	sensitive := func(in ssa.Instruction) string {
+		switch x := in.(type) {
+		case *ssa.Store:
+			if fa, ok := x.Addr.(*ssa.FieldAddr); ok {
+				if stt, T := structOf(fa.X.Type()); stt != nil && T != nil {
+					if nt, ok := types.Unalias(T).(*types.Named); ok && nt.Obj().Pkg() != nil {
+						if fieldTargets[nt.Obj().Pkg().Path()+"::write "+nt.Obj().Name()+"."+stt.Field(fa.Field).Name()] {
+							return "write of " + nt.Obj().Name() + "." + stt.Field(fa.Field).Name()
+						}
+					}
+				}
+			}
+		case *ssa.Send:
+			if f := fieldOf(x.Chan); f != "" {
+				k := f[:strings.Index(f, "::")+2] + "send " + f[strings.Index(f, "::")+2:]
+				if fieldTargets[k] {
+					return "send on " + f[strings.Index(f, "::")+2:]
+				}
+			}
+		case *ssa.Select:
+			for _, st := range x.States {
+				if st.Dir != types.SendOnly {
+					continue
+				}
+				if f := fieldOf(st.Chan); f != "" {
+					k := f[:strings.Index(f, "::")+2] + "send " + f[strings.Index(f, "::")+2:]
+					if fieldTargets[k] {
+						return "send on " + f[strings.Index(f, "::")+2:]
+					}
+				}
+			}
+		case ssa.CallInstruction:
+			c := x.Common()
+			if c.IsInvoke() {
+				if f := fieldOf(c.Value); f != "" && fieldTargets[f+"."+c.Method.Name()] {
+					return f[strings.Index(f, "::")+2:] + "." + c.Method.Name()
+				}
+				return ""
+			}
+			if callee := c.StaticCallee(); callee != nil && targets[callee] {
+				return callee.Name()
+			}
+		}
+		return ""
 	}
 	var fns []*ssa.Function
 	for _, k := range sortedKeys(p.FnByKey) {
@@ -350,7 +423,7 @@ func coveredCallersSweep(p *Prog, prop string, rr *RunResult) {
 		}
 		state[f] = 1
 		ok := false
-		if p.contractFor(f) != nil {
+		if p.contractFor(f) != nil || p.refined(f) {
 			ok = true
 		} else if len(uses[f]) == 0 {
 			why[f] = "it has no contract and no caller in the module (an entry point)"
@@ -383,12 +456,8 @@ func coveredCallersSweep(p *Prog, prop string, rr *RunResult) {
 		n := 0
 		for _, b := range f.Blocks {
 			for _, in := range b.Instrs {
-				ci, ok := in.(ssa.CallInstruction)
-				if !ok {
-					continue
-				}
-				callee := ci.Common().StaticCallee()
-				if callee == nil || !targets[callee] {
+				what := sensitive(in)
+				if what == "" {
 					continue
 				}
 				if e == nil {
@@ -397,13 +466,13 @@ func coveredCallersSweep(p *Prog, prop string, rr *RunResult) {
 				}
 				n++
 				goal := "true"
-				desc := fmt.Sprintf("the call of %s in %s is covered by a proof (the caller has a contract or is executed in line by one that has)", callee.Name(), dispName(f))
+				desc := fmt.Sprintf("%s in %s is covered by a proof (the function has a contract or is executed in line by one that has)", what, dispName(f))
 				if !covered(f) {
 					goal = "false"
 					desc += ": " + why[f]
 				}
 				st := &State{reach: "true"}
-				o := e.obligeNoAssume(st, fmt.Sprintf("covered-callers:%s:%d", callee.Name(), n), "discipline", tags, goal, desc, in.Pos())
+				o := e.obligeNoAssume(st, fmt.Sprintf("covered-callers:%s:%d", strings.ReplaceAll(what, " ", "-"), n), "discipline", tags, goal, desc, in.Pos())
 				o.Pos = posOf(p, in.Pos())
 			}
 		}
@@ -413,4 +482,51 @@ func coveredCallersSweep(p *Prog, prop string, rr *RunResult) {
 			rr.Obls = append(rr.Obls, e.obls...)
 		}
 	}
+}
+
+// refined: fn is the method of a module type that is verified against the method contract
+// of a (non-assumed) interface it implements.
+func (p *Prog) refined(fn *ssa.Function) bool {
+	if p.refinedSet == nil {
+		p.refinedSet = map[*ssa.Function]bool{}
+		for _, ik := range sortedKeys(p.CS.Ifaces) {
+			ic := p.CS.Ifaces[ik]
+			if ic.Assumed {
+				continue
+			}
+			sp := p.SPkgs[ic.PkgPath]
+			if sp == nil {
+				continue
+			}
+			obj := sp.Pkg.Scope().Lookup(ic.Name)
+			if obj == nil {
+				continue
+			}
+			it, ok := obj.Type().Underlying().(*types.Interface)
+			if !ok {
+				continue
+			}
+			for _, impl := range p.implementers(it) {
+				if len(ic.Impls) > 0 {
+					nm := types.TypeString(impl, func(*types.Package) string { return "" })
+					if !contains(ic.Impls, nm) && !contains(ic.Impls, strings.TrimPrefix(nm, "*")) {
+						continue
+					}
+				}
+				for mn := range ic.Methods {
+					sel := p.SSA.MethodSets.MethodSet(impl).Lookup(sp.Pkg, mn)
+					if sel == nil {
+						sel = p.SSA.MethodSets.MethodSet(impl).Lookup(nil, mn)
+					}
+					if sel == nil {
+						continue
+					}
+					if f := p.SSA.MethodValue(sel); f != nil && f.Synthetic == "" && inModule(f) {
+						p.refinedSet[f] = true
+					}
+				}
+			}
+		}
+	}
+	return p.refinedSet[fn]
 }
